@@ -31,12 +31,15 @@ from vlib import gen
 
 PID = "C06"
 GEN = ["primality"]
-LEAN = ["Ymq.Props.C06"]
+LEAN = ["Ymq.Props.C06", "Ymq.Props.C06Word"]
 AUDIT = "Ymq.Audit.C06"
 THEOREMS = ["Ymq.C06." + t for t in (
     "mg2adicInv_spec", "miller_iff_sprp", "isprime64_complete", "isprime64_even", "isprime64_total",
     "isprime64_sound", "isprime64_exact", "pseudoprime_complete", "pseudoprime_even",
-    "pseudoprime_eq_isprime64", "pseudoprime_total", "pseudoprime_oversize")]
+    "pseudoprime_eq_isprime64", "pseudoprime_total", "pseudoprime_oversize",
+    # Props/C06Word.lean: the Miller-Rabin loop over the limb-level ZmodN (composition with C07)
+    "pseudoprime_word_eq", "pseudoprime_word_total", "pseudoprime_complete_word", "pseudoprime_word_even",
+    "pseudoprime_below_two", "pseudoprime_word_eq_isprime64", "pseudoprime_word_oversize", "pseudoprime_word_iff_sprp_partial")]
 PROFILES = ["release", "chk"]
 TIMEOUT = 20.0
 W = 1 << 64
@@ -59,10 +62,14 @@ MODELLED = [
     "SMALL_PRIMES, the three base lists, the two shift thresholds and the presence of the even guard are regenerated from the source",
     "lib.rs pseudoprime: even test, 64-bit delegation, ZmodN::new size assert, s = tz(low word - 1), p >> s, pow_mod, "
     "squaring loop, 46 bases (Ymq/Model/Pseudoprime.lean)",
+    "lib.rs pseudoprime above 64 bits at WORD level (Ymq/Model/PseudoprimeWord.lean): the same loop (inner pow_mod with its last useless "
+    "squaring, pm1 = sub(zero, one), == on 8-word MInts, early return false) over C07's limb-level ZmodN (new, from_int, CIOS mul + "
+    "conditional subtraction, sub), every assert/debug_assert/overflow/index site a panic; proved equal to the residue-level model on "
+    "every input (pseudoprime_word_eq), run by the driver against the real pseudoprime (op pseudoprime_word) and, value by value, against "
+    "the real ring calls pseudoprime makes for a base (op pp_ring: one, pm1, from_int(b), its square)",
 ]
 UNMODELLED = [
-    "pseudoprime above 64 bits: ZmodN::{from_int,mul,sub,one} are taken as exact modular arithmetic on residues (that is C07's "
-    "theorem); the multiword code itself is exercised by K on 65..512-bit inputs",
+    "bnum's Uint operators used by pseudoprime / ZmodN::new (bit, bits, >>, %, *, digits) are mathematical operations on Nat",
     "rejection of composites above 64 bits is not a theorem (no bound is known for 46 bases): checked on corpora only",
 ]
 
@@ -224,8 +231,39 @@ def c64(n, tag="", both=True, k=True):
         yield Case(f"pseudoprime {n}", tag=tag, timeout=T64, k=k)
 
 
+# The driver runs the limb-level model on boxed 64-bit words: an accepted 512-bit input (46 bases x ~770 CIOS products) takes
+# ~5.5 s there, cubic in the size; a rejected one stops at the first base. Accepted inputs of 200 bits and more therefore draw on
+# a budget of driver seconds (reset by cases(); the boundary family is served first) and are sent to the checked profile only (the
+# one where a panic site of ZmodN would show); the real call itself runs in both profiles under the op `pseudoprime`.
+_WORD_BUDGET = {"left": 0.0}
+
+
+def word_case(n, tag=""):
+    """`pseudoprime_word n`: the same real call as `pseudoprime n`; the driver answers with the limb-level model"""
+    bits = n.bit_length()
+    accepted = bits <= 512 and n % 2 == 1 and (tag.startswith("P:") or tag == "edge" or (not tag.startswith("C:") and mr_big(n)))
+    if not accepted or bits < 200:
+        yield Case(f"pseudoprime_word {n}", tag=tag, timeout=20.0, o=bits <= 512 or n % 2 == 0)
+        return
+    est = 5.5 * (bits / 512.0) ** 3
+    if _WORD_BUDGET["left"] >= est:
+        _WORD_BUDGET["left"] -= est
+        yield Case(f"pseudoprime_word {n}", tag=tag, timeout=30.0, profiles=["chk"])
+
+
 def cbig(n, tag=""):
     yield Case(f"pseudoprime {n}", tag=tag, timeout=20.0)
+    yield from word_case(n, tag)
+
+
+RING_BASES = (2, 199, 4294967295)       # first / last of SMALL_PRIMES, the largest u32 (`b.into()`)
+
+
+def cring(n, bases=RING_BASES):
+    """the ring values pseudoprime builds for a base: one, pm1 = sub(zero, one), from_int(b), its square (odd n < 2^512, b < n)"""
+    for b in bases:
+        if b < n:
+            yield Case(f"pp_ring {n} {b}", timeout=20.0)
 
 
 def family_products(limit, rs=(2, 3, 4, 5, 6, 7, 9, 13)):
@@ -281,6 +319,7 @@ def boundary_cases(rng, tier):
             yield from cbig(n, tag=tag)
         else:                                                            # assert of ZmodN::new: panic in both profiles (K only)
             yield Case(f"pseudoprime {n}", o=False, tag="oversize")
+            yield Case(f"pseudoprime_word {n}", o=False, tag="oversize")
 
     def composite(n):
         assert not mr_big(n), n
@@ -307,10 +346,70 @@ def boundary_cases(rng, tier):
             yield from composite(n)
 
 
+# Arnault 1995: strong pseudoprime to every prime base up to 31 (46 digits), with its factorisation p (2p - 1)
+ARNAULT = (24444516448431392447461, 48889032896862784894921, 1195068768795265792518361315725116351898245581)
+
+
+def word_cases(rng, quick, primes):
+    """inputs aimed at the word-level loop: 2^k -+ 1 at and around every word boundary, p - 1 = 2^j * odd for large j (low word 1,
+    several zero words), moduli of all-ones words, a strong pseudoprime to 11 bases, the ring values for first/last/largest base at
+    every word count (8-word moduli with the top bit set included: pm1 = sub(0, one) where C07's general sub has no headroom)."""
+    ks = [65, 66, 96, 127, 128, 129, 191, 192, 193, 255, 256, 257, 320, 383, 384, 385, 447, 448, 449, 500, 510, 511, 512]
+    for k in ks:
+        for n in ((1 << k) - 1, (1 << k) + 1, (1 << k) - (1 << (k // 2)) - 1, (1 << k) - (1 << 64) + 1):
+            if n.bit_length() <= 512 and n >= W:
+                yield from cbig(n)
+                yield from cring(n, bases=(2, 199))
+    # p - 1 = 2^j * odd: the squaring loop runs s = tz(low word - 1) times (64 when the low word is 1: p >> s is then even for j > 64)
+    for j in (1, 2, 31, 63, 64, 65, 66, 100, 128, 192, 200, 256, 320, 384, 447, 448, 500):
+        for _ in range(1 if quick else 4):
+            hb = rng.randrange(max(2, 66 - j), 513 - j) if j < 500 else rng.randrange(2, 12)
+            m = rng.getrandbits(hb) | 1 | (1 << (hb - 1))
+            n = (m << j) + 1
+            if W <= n and n.bit_length() <= 512:
+                yield from cbig(n)
+                yield from cring(n, bases=(3,))
+    for j, kb in [(447, 64), (63, 10), (65, 8), (66, 30), (128, 20), (192, 64)] + ([] if quick else [(256, 100), (320, 60), (400, 100)]):
+        p = proth_prime(rng, j, kb)
+        if p is not None:
+            yield from cbig(p, tag="P:proth")
+    a, b, n = ARNAULT
+    if a * b == n and 2 * a - 1 == b and all(sprp(n, q) for q in _SMALL[:11]):
+        yield from cbig(n, tag="C:psi")
+        yield from cring(n)
+    # strong pseudoprimes to base 2 (and more) above 2^64: n = p (2p - 1) passes a base with probability ~1/4
+    found = 0
+    for _ in range(40000 if quick else 400000):
+        if found >= (6 if quick else 40):
+            break
+        p = rng.getrandbits(rng.randrange(34, 60)) | 3
+        if any(p % q == 0 or (2 * p - 1) % q == 0 for q in _SMALL[1:25]):
+            continue
+        if gen.is_prime(p) and gen.is_prime(2 * p - 1):
+            n = p * (2 * p - 1)
+            if n >= W and sprp(n, 2):
+                found += 1
+                yield from cbig(n, tag="C:fam")
+    # ring values at every word count; both ends of the 8-word range
+    for p in primes:
+        yield from cring(p)
+    for n in ((1 << 512) - 1, (1 << 512) - 569, (1 << 511) + 1, (1 << 511) - 1, (1 << 448) + 1, (1 << 448) - 1, W + 1, W + 13,
+              (1 << 128) - 159, 3 * W + 1, (1 << 512) - (1 << 64) + 1):
+        yield from cring(n)
+    for _ in range(20 if quick else 200):
+        n = rng.getrandbits(rng.randrange(65, 513)) | 1
+        if n >= W:
+            yield from cring(n, bases=(rng.randrange(2, 1 << 32),))
+    for n in (3, 199, 1000003, W - 59):                                 # one-word rings (k = 1): never built by pseudoprime itself
+        yield from cring(n, bases=(2,))
+
+
 def cases(tier, rng, extended=False):
     quick = tier == "quick"
     scale = (1 if quick else 12) * (10 if extended else 1)
+    _WORD_BUDGET["left"] = 21.0 if quick else 60.0
     yield from boundary_cases(_fork(rng, "C06-boundary"), tier)
+    _WORD_BUDGET["left"] = (19.0 if quick else 400.0) * (3 if extended else 1)
     # ---- isprime64: exhaustive low range (odd p and everything below 200), sampled evens
     top = (1 << 16) if quick else (1 << 22)
     for p in range(0, 200):
@@ -386,7 +485,11 @@ def cases(tier, rng, extended=False):
         for _ in range(reps):
             p = certified_prime(rng, b)
             primes.append(p)
-            yield from cbig(p, tag="P:pocklington")
+            yield Case(f"pseudoprime {p}", tag="P:pocklington", timeout=20.0)
+    # word-level op: one prime of every word count first (largest first, both sides of the 8-word top), the others while the budget lasts
+    first = [primes[sizes.index(b) * reps] for b in (512, 449, 385, 511, 320, 257, 193, 129, 65)]
+    for p in first + [q for q in primes if q not in first]:
+        yield from word_case(p, tag="P:pocklington")
     # low word = 1 (s = 64 and an even p >> s when v2(p-1) > 64)
     for n, kb in [(64, 8), (64, 12), (64, 20), (64, 60), (65, 10), (70, 16), (100, 30), (128, 60), (200, 100),
                   (250, 249), (256, 250)]:
@@ -435,11 +538,17 @@ def cases(tier, rng, extended=False):
     yield from cbig(W + 1)
     yield from cbig(W + 13)
     for b in (513, 600, 1024):                                          # assert in ZmodN::new: panic in both profiles
-        yield Case(f"pseudoprime {rng.getrandbits(b) | 1 | (1 << (b - 1))}", o=False, tag="oversize")
+        n = rng.getrandbits(b) | 1 | (1 << (b - 1))
+        yield Case(f"pseudoprime {n}", o=False, tag="oversize")
+        yield Case(f"pseudoprime_word {n}", o=False, tag="oversize")
+        yield Case(f"pp_ring {n} 2", o=False, tag="oversize")
+    yield from word_cases(rng, quick, primes)
 
 
 def corpus_case(line):
     n = int(line.split()[1])
+    if line.startswith("pp_ring"):
+        return Case(line, timeout=20.0, o=n % 2 == 1 and n.bit_length() <= 512 and int(line.split()[2]) < n)
     oversize = n % 2 == 1 and n.bit_length() > 512          # refused by the assert of ZmodN::new (C03 / F12)
     t = 20.0
     if line.startswith("isprime64"):
@@ -447,7 +556,25 @@ def corpus_case(line):
     return Case(line, timeout=t, o=not oversize)
 
 
+def oracle_ring(case, ans):
+    n, b = int(case.args[0]), int(case.args[1])
+    k = (n.bit_length() + 63) // 64
+    R = 1 << (64 * k)
+    want = [R % n, (n - 1) * R % n, b * R % n, b * b * R % n]
+    try:
+        got = [int(x) for x in ans.split()]
+    except ValueError:
+        return f"no ring values returned ({ans})"
+    names = ["one", "pm1 = sub(zero, one)", "from_int(b)", "from_int(b)^2"]
+    for nm, g, w in zip(names, got, want):
+        if g != w:
+            return f"{nm} = {g}, expected the Montgomery form {w} (n = {n}, b = {b})"
+    return None if len(got) == 4 else f"malformed answer ({ans})"
+
+
 def oracle(case, ans):
+    if case.op == "pp_ring":
+        return oracle_ring(case, ans)
     n = int(case.args[0])
     if ans not in ("true", "false"):
         return f"no decision returned ({ans})"
@@ -467,6 +594,8 @@ def oracle(case, ans):
 
 def klass(case, ans):
     n = int(case.args[0])
+    if case.op == "pp_ring":
+        return f"pp_ring/{(n.bit_length() + 63) // 64}w" + ("-top" if n.bit_length() == 512 else "") + ("/panic" if ans == "panic" else "")
     if case.op == "isprime64" or n < W:
         if n < 199:
             br = "table"
